@@ -91,6 +91,11 @@ def wellformed(tree, src: str):
                 return (f"span-incomplete:{cname}", {"at": path, "pos": pos})
             if not ((1, 0) <= pos[:2] <= pos[2:] <= last):
                 return (f"span-out-of-order-or-range:{cname}", {"at": path, "pos": pos, "text_end": last})
+            # each end of the span lies on its own line: 0 <= column <= length of that line (its line end included:
+            # a verbatim macro argument may end with the NL token)
+            for ln, col in (pos[:2], pos[2:]):
+                if not (0 <= col <= len(lines[ln - 1]) + (1 if ln < len(lines) else 0)):
+                    return (f"span-column-outside-its-line:{cname}", {"at": path, "pos": pos, "line_length": len(lines[ln - 1])})
         if "ctx" in sig:
             ctx = getattr(node, "ctx", None)
             exp = want_ctx or "Load"
